@@ -41,6 +41,10 @@ CAUGHT = {
     "C11-8": {"C11": "violation"}, "C12-8": {"C12": "violation"}, "C13-8": {"C13": "violation"}, "C14-8": {"C14": "violation"}, "C15-8": {"C15": "violation"}, "C16-8": {"C16": "violation"}, "C17-8": {"C17": "violation"}, "C18-8": {"C18": "violation"}, "C19-8": {"C19": "violation"}, "C20-8": {"C20": "tie (the change alters the signature of discoverProviderMetadata: the discovery harness no longer compiles; the long-outage case that would show it is in the thorough tier)"},
     "C01-9": {"C01": "violation"}, "C02-9": {"C02": "violation"}, "C03-9": {"C03": "violation"}, "C04-9": {"C04": "violation"}, "C05-9": {"C05": "violation"}, "C06-9": {"C06": "violation"}, "C07-9": {"C07": "violation"}, "C08-9": {"C08": "violation"}, "C09-9": {"C09": "violation"}, "C10-9": {"C10": "violation"},
     "C11-9": {"C11": "violation"}, "C12-9": {"C13": "violation", "C12": "tie (the change evicts a second, live entry when it finds an expired one: victim selection is C13's clause)"}, "C13-9": {"C13": "violation"}, "C14-9": {"C14": "violation"}, "C15-9": {"C15": "violation"}, "C16-9": {"C16": "violation"}, "C17-9": {"C17": "violation"}, "C18-9": {"C18": "violation"}, "C19-9": {"C19": "violation"}, "C20-9": {"C20": "violation"},
+    "C04-10": {"C04": "violation (after the generator extension: auth_time / sid claims; blind: missed)"}, "C11-10": {"C11": "violation"}, "C13-10": {"C13": "violation"},
+    "C14-10": {"C14": "violation (after the generator extension: a correctly signed token without a subject in the verify-histories; blind: tie only - the pooled struct made tokens without jti inherit one and be refused as replays, which the model does not do but the property does not forbid)", "C02": "not reported"},
+    "C17-10": {"C17": "violation (after the generator extension: heavily percent-escaped URIs; blind: missed)"},
+    "C20-10": {"C20": "tie (initializeMetadata gained a context parameter: the discovery harness no longer compiles against it)"},
     "C01-7": {"C01": "violation"}, "C02-7": {"C02": "violation"}, "C03-7": {"C03": "violation"}, "C04-7": {"C04": "violation"}, "C05-7": {"C05": "violation"}, "C06-7": {"C06": "violation"}, "C07-7": {"C07": "violation"}, "C08-7": {"C08": "violation"}, "C09-7": {"C09": "violation"}, "C10-7": {"C10": "violation"},
     "C11-7": {"C11": "violation"}, "C12-7": {"C12": "violation"}, "C13-7": {"C13": "violation"}, "C14-7": {"C14": "violation"}, "C15-7": {"C15": "violation"}, "C16-7": {"C16": "violation"}, "C17-7": {"C17": "violation"}, "C18-7": {"C18": "violation"}, "C19-7": {"C19": "violation"}, "C20-7": {"C20": "violation"},
 }
